@@ -75,6 +75,9 @@ def _adapter(ctx, modattr, width, cost_param, extra=None):
         state["X"] = X
         obj = ex.new_object(cls, [cost], {})
         state["obj"] = obj
+        # history: the same object was fitted on other data of the same size and evaluated before
+        call_method(ex, obj, "fit", data_sym(ex, "X0"))
+        call_method(ex, obj, "evaluate", cuts)
         call_method(ex, obj, "fit", X)
         state["n_fit"] = len(ex.events)
         mark(ex, "fit-done")
@@ -235,6 +238,8 @@ def check_direct(ctx, pkg, name, width, specname):
         X = data_sym(ex)
         cuts = cuts_sym(ex, width)
         obj = ex.new_object(cls, [], {})
+        call_method(ex, obj, "fit", data_sym(ex, "X0"))
+        call_method(ex, obj, "evaluate", cuts)
         call_method(ex, obj, "fit", X)
         state["n_fit"] = len(ex.events)
         mark(ex, "fit-done")
